@@ -183,11 +183,11 @@ var plans = map[string]*plan{
 	},
 	"C02": {
 		Level:          "exploration",
-		Rule:           "broker role: scripts over packet ids mixing QoS1 PUBLISH, QoS2 PUBLISH, DUP QoS2 PUBLISH carrying different bytes, PUBREL, repeated PUBREL and filler of more than two ring sizes; exhaustive up to length 5 over a 6-token alphabet with 2 ids (thorough 7), sampled longer scripts over 3..4 ids; after every packet, at synctest quiescence, the publisher's wire must show exactly the one matching ack and the QoS2 subscriber's wire exactly the due hand-overs: none before PUBREL, one at PUBREL (when first PUBRELs come in exchange order as MQTT-4.6.0 demands of a sender; otherwise no later than the PUBREL of all older exchanges), never again, always the first PUBLISH's content. distinct = script shapes.",
+		Rule:           "broker role: scripts over packet ids mixing QoS1 PUBLISH, QoS2 PUBLISH, DUP QoS2 PUBLISH carrying different bytes, PUBREL, repeated PUBREL and filler of more than two ring sizes; exhaustive up to length 5 over a 6-token alphabet with 2 ids (thorough 7), sampled longer scripts over 3..4 ids, every third with one or two CleanSession=0 reconnects of the sender, every tenth a burst (17..48 QoS2 exchanges open at once after 0..5 completed ones, retransmissions in between, released oldest first with repeated PUBRELs, identifiers then reused); client role: the same scripts sent by a scripted TCP peer to a library Client, OnPublish invocations = hand-overs; after every packet, at synctest quiescence, the publisher's wire must show exactly the one matching ack and the QoS2 subscriber's wire exactly the due hand-overs: none before PUBREL, one at PUBREL (when first PUBRELs come in exchange order as MQTT-4.6.0 demands of a sender; otherwise no later than the PUBREL of all older exchanges), never again, always the first PUBLISH's content. distinct = script shapes.",
 		Quick:          []batchSpec{{Test: "TestC02Broker", N: 8, Timeout: 15 * m}, {Test: "TestC02Client", N: 4, Timeout: 15 * m}},
 		Thorough:       []batchSpec{{Test: "TestC02Broker", N: 16, Timeout: 60 * m}, {Test: "TestC02Client", N: 8, Timeout: 60 * m}},
 		EvalStats:      []string{"c02.scripts"},
-		Floors:         map[string]int64{"c02.scripts": 8000, "c02.steps": 50000, "c02.client_scripts": 380, "classes": 3500},
+		Floors:         map[string]int64{"c02.scripts": 8000, "c02.steps": 50000, "c02.client_scripts": 380, "c02.burst_scripts": 250, "c02.client_burst_scripts": 35, "classes": 3500},
 		FloorsThorough: map[string]int64{"c02.scripts": 300000, "classes": 100000},
 		Assumptions:    []string{"quiescence by synctest.Wait()", "client role: library Client subscribed to c02/# against a scripted TCP peer, hand-over = OnPublishFunc invocations, quiescence = PINGREQ/PINGRESP barrier"},
 	},
